@@ -173,8 +173,9 @@ theorem trail_follow_append (d : Val) (a b : List TrailEl) :
     a sub-value, which is the recorded input; and the report's own sub-exceptions (the
     alternatives of a union) are exactly located relative to that sub-value -/
 theorem trail_exact_reports {d : Val} {e : LErr} (h : TrailExact d e) :
-    ∀ p ∈ reports e, ∃ x, follow d p.1 = some x ∧ TrailInputOk x p.2.cls p.2.input ∧
-      ∀ c ∈ p.2.children, TrailExact x c := by
+    ∀ p ∈ reports e, p.2.cls ≠ "AggregateLoadError" ∧
+      ∃ x, follow d p.1 = some x ∧ TrailInputOk x p.2.cls p.2.input ∧
+        ∀ c ∈ p.2.children, TrailExact x c := by
   induction h with
   | @mk d x cls t i det ch hf hi hc ih =>
     intro p hp
@@ -183,11 +184,12 @@ theorem trail_exact_reports {d : Val} {e : LErr} (h : TrailExact d e) :
     · rw [trail_reportsL_eq] at hp
       obtain ⟨q, hq, rfl⟩ := List.mem_map.mp hp
       obtain ⟨c, hcm, hqc⟩ := List.mem_flatMap.mp hq
-      obtain ⟨y, hy1, hy2, hy3⟩ := ih c hcm q hqc
-      refine ⟨y, ?_, hy2, hy3⟩
+      obtain ⟨hne, y, hy1, hy2, hy3⟩ := ih c hcm q hqc
+      refine ⟨hne, y, ?_, hy2, hy3⟩
       simp [trail_follow_append, hf, hy1]
-    · simp only [List.mem_singleton] at hp
+    · rename_i hcls
+      simp only [List.mem_singleton] at hp
       subst hp
-      exact ⟨x, hf, hi, hc⟩
+      exact ⟨by simpa [LErr.cls] using hcls, x, hf, hi, hc⟩
 
 end Adaptix.Morph
